@@ -11,6 +11,11 @@
 (*   keys    <<[e, c, k]>> advertised keys of every evaluator that has     *)
 (*           computed them, observed after the call                        *)
 (*   saved   <<[e, d]>> digest of save_to_config of every evaluator        *)
+(*   src     new_evaluator: where the metric-list argument came from       *)
+(*           ("fresh" | "shared" | "default", Objects.tla)                 *)
+(*   args    <<[n, d]>> content of every argument object of the caller     *)
+(*           (its shared metric lists) and of the constructor's default    *)
+(*           arguments, observed after the call; argsb: before it          *)
 (* The history must be a behaviour of Objects.tla (the step is the         *)
 (* module's own Next, bound to the logged action), and the observations    *)
 (* must satisfy the named clauses; first-seen values are remembered in     *)
@@ -19,37 +24,44 @@
 EXTENDS Integers, Sequences, FiniteSets, TLC, Json, IOUtils
 
 Traces == ndJsonDeserialize(IOEnv.TRACE_FILE)
-VARIABLES evs, lists, aggs, hist, last, steps, tid, l, memo, keys0, saved0
-ovars == <<evs, lists, aggs, hist, last, steps>>
+VARIABLES evs, lists, mlists, aggs, hist, last, steps, tid, l, memo, keys0, saved0, args0
+ovars == <<evs, lists, mlists, aggs, hist, last, steps>>
 
-O == INSTANCE Objects WITH Cfgs <- {"c1", "c2", "c3"}, Inputs <- {"i1", "i2", "i3"}, MaxEvaluators <- 3, MaxSteps <- 1000,
-                           AliasKeys <- FALSE, PerCallTimes <- FALSE
+O == INSTANCE Objects WITH Cfgs <- {"c1", "c2", "c3", "c5"}, Inputs <- {"i1", "i2", "i3"}, MaxEvaluators <- 3, MaxSteps <- 1000,
+                           AliasKeys <- FALSE, PerCallTimes <- FALSE,
+                           DefaultCfgs <- {"c1", "c5"}, RejectedCfgs <- {"c5"}, MutateArgs <- FALSE
 
 Ev == Traces[tid].ev
 E  == Ev[l]
 Range(s) == {s[i] : i \in 1..Len(s)}
 
-Init == O!Init /\ tid \in 1..Len(Traces) /\ l = 0 /\ memo = {} /\ keys0 = {} /\ saved0 = {}
+Init == O!Init /\ tid \in 1..Len(Traces) /\ l = 0 /\ memo = {} /\ keys0 = {} /\ saved0 = {} /\ args0 = {}
 Consume ==
     /\ l < Len(Ev) /\ l' = l + 1 /\ UNCHANGED tid
     /\ O!Next
     /\ LET n == Ev[l + 1] IN
        /\ last'.act = n.act /\ last'.e = n.e /\ last'.c = n.c /\ last'.inp = n.inp
        /\ last'.sgt = n.sgt /\ last'.ra = n.ra /\ last'.log = n.log /\ last'.vb = n.vb /\ last'.pool = n.pool
+       /\ last'.src = n.src
+       /\ args0' = args0 \cup {<<a.n, a.d>> : a \in {x \in Range(n.argsb) : ~\E y \in args0 : y[1] = x.n}}
        /\ memo' = IF n.act = "evaluate" /\ n.out = "ok" /\ ~\E m \in memo : m[1] = n.c /\ m[2] = n.inp
                   THEN memo \cup {<<n.c, n.inp, n.res>>} ELSE memo
        /\ keys0' = keys0 \cup {<<k.c, k.k>> : k \in {x \in Range(n.keys) : ~\E y \in keys0 : y[1] = x.c}}
        /\ saved0' = saved0 \cup {<<s.e, s.d>> : s \in {x \in Range(n.saved) : ~\E y \in saved0 : y[1] = x.e}}
-AtEnd == l = Len(Ev) /\ UNCHANGED <<ovars, tid, l, memo, keys0, saved0>>
+AtEnd == l = Len(Ev) /\ UNCHANGED <<ovars, tid, l, memo, keys0, saved0, args0>>
 Next == Consume \/ AtEnd
-Spec == Init /\ [][Next]_<<ovars, tid, l, memo, keys0, saved0>>
+Spec == Init /\ [][Next]_<<ovars, tid, l, memo, keys0, saved0, args0>>
 
 Go == l >= 1
-T_NoRaise         == Go => E.out = "ok"
+\* every call completes; only the uses of a rejected configuration may be refused (C15 does not
+\* demand the refusal: an implementation that makes such a configuration work is as good)
+RefusedCall       == E.c = "c5" /\ E.act \in {"evaluate", "query_keys", "new_aggregator"}
+T_NoRaise         == Go => (E.out = "ok" \/ RefusedCall)
 T_InputsUntouched == Go => E.inb = E.ina
 T_Deterministic   == (Go /\ E.act = "evaluate" /\ E.out = "ok") => <<E.c, E.inp, E.res>> \in memo
 T_KeysStable      == Go => \A k \in Range(E.keys) : <<k.c, k.k>> \in keys0
 T_SavedStable     == Go => \A s \in Range(E.saved) : <<s.e, s.d>> \in saved0
+T_ArgsUntouched   == Go => \A a \in Range(E.args) \cup Range(E.argsb) : <<a.n, a.d>> \in args0
 \* the model's own invariants on the inferred state
 T_ModelKeys       == O!KeysAreBase
 =============================================================================
